@@ -425,6 +425,13 @@ class Ctx:
         p = s.reduce(p)
         if not s.is_real_poly(p):
             raise Inconclusive('order test on a value not known to be real: ' + p.show(s.atoms))
+        # clear negative powers of positive atoms (multiplying by a positive monomial keeps the sign and keeps the test linear)
+        mn = {}
+        for m in p.t:
+            for a, e in m:
+                if e < 0 and s.atoms.pos[a]: mn[a] = min(mn.get(a, 0), e)
+        if mn:
+            p = p * Poly({tuple(sorted((a, -e) for a, e in mn.items())): G1})
         if p.is_const():
             c = p.const_value().re
             return c > 0 if strict else c >= 0
